@@ -550,6 +550,15 @@ fn nuts_case(ctx: &Ctx, rep: &mut Report, case: u64, g: &mut Sm64) {
         truth: d as f64,
         reps: chains.iter().map(|c| c.iter().map(|x| -2.0 * crate::targets::RefTarget::logp(&t, x)).sum::<f64>() / c.len() as f64).collect(),
     });
+    if let Some(q) = stats.last() {
+        let (m, v) = mean_var(&q.reps);
+        let z = (m - q.truth) / (v / q.reps.len() as f64).sqrt();
+        rep.max("nuts_pooled_quadratic_form_abs_z_over_threshold", z.abs() / t_threshold(q.reps.len() - 1));
+        rep.max("nuts_pooled_quadratic_form_rel_se", (v / q.reps.len() as f64).sqrt() / q.truth);
+        if wide {
+            rep.note(format!("NUTS d={d} delta={delta:.3}: E[(x-m)'P(x-m)]/d = {:.4} +- {:.4} (z = {z:.2})", m / q.truth, (v / q.reps.len() as f64).sqrt() / q.truth));
+        }
+    }
     if !judge(rep, "NUTS", mon, case, &cfg, &stats) {
         return;
     }
